@@ -70,8 +70,12 @@ def gen_cases(tier, seed):
                 o = {'t': kind, 'name': 'U', 'up': [a, b]}
                 if kind == 'anti':
                     o = {'t': 'anti', 'name': 'U', 'up': [a], 'lo': [b], 'bk': 0}
-                if r.random() < 0.2:
+                x_ = r.random()
+                if x_ < 0.2:
                     o['exp'] = r.choice([2, 2, 3])
+                elif x_ < 0.27:
+                    # an inverse power is no factor U that could be paired
+                    o['exp'] = r.choice([-1, -1, -2])
                 objs.append(o)
             # remainder
             for _ in range(r.choice([0, 0, 1, 1, 2])):
